@@ -396,6 +396,12 @@ func c19Other(c *vlib.Ctx) {
 					c.Violate(w.typ+":copy-error:"+kind, fmt.Sprintf("CopyInstance(%s) of a %s instance at node %d failed: %v", kind, w.typ, at, err), nil)
 					continue
 				}
+				// the copy must also be what a restarted server loads: the stored metadata is loaded by the start-up path
+				// into a second, read-only manager and the copy's settings compared with the live instance's
+				c.Eval(1)
+				if what := c19ReloadedConfigDiff(root, dst); what != "" {
+					c.Violate(w.typ+":"+kind+":settings-lost-on-restart", fmt.Sprintf("%s copy of a %s instance issued at node %d: %s", kind, w.typ, at, what), map[string]interface{}{"type": w.typ, "copy": kind, "issued_at": at})
+				}
 				for v, vu := range uuids {
 					if flatten && v != at {
 						continue
@@ -422,4 +428,33 @@ func trunc(s string, n int) string {
 		return s[:n] + "..."
 	}
 	return s
+}
+
+// c19ReloadedConfigDiff compares the live settings of one instance with the settings a restarted server would load.
+func c19ReloadedConfigDiff(root, name string) string {
+	re, err := datastore.VerifReloadDump(root)
+	if err != nil {
+		return "the stored metadata cannot be loaded after the copy: " + err.Error()
+	}
+	find := func(d datastore.VerifState) (string, bool) {
+		for _, r := range d.Repos {
+			if r.Root == root {
+				cfg, ok := r.InstanceConfig[name]
+				return cfg, ok
+			}
+		}
+		return "", false
+	}
+	lc, lok := find(datastore.VerifDump(root))
+	rc, rok := find(re)
+	if !lok {
+		return ""
+	}
+	if !rok {
+		return "the copy " + name + " is not part of the stored metadata"
+	}
+	if a, b := c07CanonConfig(lc), c07CanonConfig(rc); a != b {
+		return "a restart would change the copy's settings: live " + trunc(a, 600) + " stored " + trunc(b, 600)
+	}
+	return ""
 }
